@@ -1469,7 +1469,21 @@ class Engine:
         if n in ('_ZdlPvmSt11align_val_t', '_ZdlPv', '_ZdlPvm', 'free', '_ZdaPv', '_ZdlPvSt11align_val_t'): return 0
         if n.startswith('llvm.memset'):
             dst, byte, ln = a[0], a[1], a[2]
-            if not is_c(ln): raise Unsupported('symbolic memset length in %s: %s' % (f.fn.name[:120], str(ln)[:200]))
+            if not is_c(ln):
+                # a length computed from shared values (e.g. the bucket count of the table another thread may have chained): enumerate
+                # it like a symbolic allocation size (obligation-backed); a single candidate is used, several are unsupported
+                vs = s.enum_values(ln, p.pc)
+                if not vs: return 'end'
+                if len(vs) != 1:
+                    # several candidate lengths (all multiples of 8): guarded 8-byte stores up to the largest, like symbolic memcpy
+                    if any(l % 8 for l in vs) or not is_c(byte) or len(vs) > 16: raise Unsupported('symbolic memset length in %s: %s' % (f.fn.name[:120], str(ln)[:200]))
+                    vv = 0
+                    for k in range(8): vv |= (byte & 0xff) << (8 * k)
+                    for off in range(0, max(vs), 8):
+                        old, _ = s.shared_load(p, s.add64(dst, off), 8, 'na', ins.text)
+                        s.shared_store(p, s.add64(dst, off), 8, s.ite_b(z3.UGT(tobv(ln, 64), off), vv, old, 64), 'na', ins.text)
+                    return 0
+                ln = vs[0]
             i = 0
             while i < ln:
                 c = 8 if ln - i >= 8 and (not is_c(dst) or (dst + i) % 8 == 0) else 1
